@@ -33,8 +33,16 @@ def discretize(g, flux, dir_faces, n):
 
     up = pp.Upwind(KW)
     bc = pp.BoundaryCondition(g, np.array(dir_faces, dtype=int), "dir") if dir_faces else pp.BoundaryCondition(g)
-    data = pp.initialize_data(g, {}, KW, {up.flux_array_key: np.array(flux, dtype=float), "bc": bc,
+    # the data dictionary is first discretised with the COMPLEMENTARY boundary types (same flux), then with the types of the
+    # case: what is judged is the second discretisation, which must follow the current parameters and nothing kept from
+    # the first (a model re-discretises the same dictionary whenever its parameters change)
+    bnd = np.where(g.tags["domain_boundary_faces"])[0]
+    other = np.setdiff1d(bnd, np.array(dir_faces, dtype=int))
+    bc0 = pp.BoundaryCondition(g, other, "dir") if other.size else pp.BoundaryCondition(g)
+    data = pp.initialize_data(g, {}, KW, {up.flux_array_key: np.array(flux, dtype=float), "bc": bc0,
                                          "num_components": int(n), "bc_values": np.zeros(g.num_faces)})
+    up.discretize(g, data)
+    data[pp.PARAMETERS][KW]["bc"] = bc
     up.discretize(g, data)
     md = data[pp.DISCRETIZATION_MATRICES][KW]
     return up, data, dict(U=mat(md[up.upwind_matrix_key]), D=mat(md[up.bound_transport_dir_matrix_key]),
